@@ -280,6 +280,11 @@ class DefinitionsMapper:
         for attr in body.attrs:
             attr.restrictions.min_occurs = 0
 
+        # A fault response doesn't have to repeat the output soap headers
+        for attr in target.attrs:
+            if attr.name != "Body":
+                attr.restrictions.min_occurs = 0
+
     @classmethod
     def build_envelope_class(
         cls,
